@@ -12,6 +12,8 @@ GENERATORS = [
     ("numfacts", "NumFacts.lean", ["{repo}"]),
     ("chanfacts", "ChanFacts.lean", ["{repo}"]),
     ("statefacts", "StateFacts.lean", ["{repo}"]),
+    ("evalir", "EvalIR.lean", ["{repo}"]),
+    ("convir", "ConvIR.lean", ["{repo}"]),
 ]
 
 
@@ -749,15 +751,19 @@ PROPERTIES = {
 # decides it) — listed in the evidence next to the theorems
 _FACTS = {
     "C03": ["Generated.StateFacts.storerOps (tools/statefacts): what the setters and Clear of InMemoryStorer do to the three maps == Props/C03Facts (setters_keep_one_type, clear_resets_every_map)"],
+    "C02": ["Generated.EvalIR (tools/evalir): the whole of evaluator.go (evaluateExpression, evaluateBinaryOperation, evaluateFunctionCall, xor) translated into the GoIR embedding and proved equal to the model's eval for every expression, store and host (Props/C02IR.evaluateExpression_is_model)"],
+    "C04": ["Generated.ConvIR (tools/convir): Value.ToString == the model's display for every value (Props/C19IR.valueToString_is_model)"],
     "C05": ["Generated.StateFacts.loadSteps (tools/statefacts): FromReader attaches the collecting error listener before anything is lexed and walks only after the early return on errors (Props/C05Facts)"],
     "C06": ["Generated.NumFacts.guardSrc (tools/numfacts): refusal conditions of checkedDice/checkedRandomRange == the model's guards under int64 wrap-around (Props/C09Facts)"],
     "C07": ["Generated.StateFacts (tools/statefacts): every DialogueRunner field written after construction is written by RestoreAt; method-mutated fields are the model's containers (Props/C07Facts)"],
     "C09": ["Generated.NumFacts.guardSrc / rngSrc (tools/numfacts): guards, radix, toRadix36, seed accumulation step, IntBetween == the model (Props/C09Facts)"],
     "C10": ["Generated.ChanFacts (tools/chanfacts): per-call make with capacity >= 1, one send per path, select/default polls, nil assignments == Cfg.Good (Props/C10Chan.code_meets_hypotheses)",
             "Generated.NumFacts.durationSrc (tools/numfacts): secondsToDuration == Command.waitNanos for every double (Props/C10Facts)"],
-    "C13": ["Generated.NumFacts.ordinalSwitch (tools/numfacts): the switch of processOrdinal == Markup.ordinalCase for n >= 0 (Props/C13Facts)"],
+    "C13": ["Generated.ConvIR (tools/convir): getProcessor, processSelect/Plural/Ordinal/NoMarkup, GetProperty, Value.toString, replacePlaceholders == the model for all property lists (Props/C13IR)",
+            "Generated.NumFacts.ordinalSwitch (tools/numfacts): the switch of processOrdinal == Markup.ordinalCase for n >= 0 (Props/C13Facts)"],
     "C14": ["Generated.StateFacts.lineParserFields (tools/statefacts): every LineParser field is assigned on entry of ParseMarkup (Props/C07Facts.lineParser_fields_reset_on_entry)"],
-    "C19": ["Generated.NumFacts.numBuiltinSrc (tools/numfacts): bodies of round … integer == Ysgo.Num.* for every argument (Props/C19Facts.numBuiltins_are_model)"],
+    "C19": ["Generated.ConvIR (tools/convir): toString/toBoolean/toFloat == the model's string/bool/number built-ins for all argument lists (Props/C19IR)",
+            "Generated.NumFacts.numBuiltinSrc (tools/numfacts): bodies of round … integer == Ysgo.Num.* for every argument (Props/C19Facts.numBuiltins_are_model)"],
 }
 for _p, _f in _FACTS.items():
     PROPERTIES[_p]["generated_facts"] = list(PROPERTIES[_p].get("generated_facts", [])) + _f
